@@ -58,6 +58,17 @@ func ControlFlow(thorough bool, emit func(string)) {
 			wrap("func g(){ while x < 30 { x = x + 1; " + in + "; " + lv + " }; x }; g()")
 		}
 	}
+	// a loop body with a leave (break / continue / return, inside an if or a template block) and the DEFINITION of a nested body
+	// (function, computed value, template in a computed value) that has a loop / a leave of its own, in both orders
+	nested := []string{"func h(n) { while n > 0 { n = n - 1 } }", "func h(n) { while n > 0 { n = n - 1; if n == 1 { break } }; n }", "&cv = `{% while y < 1 { y = y + 1 } %}`", "func h() { while 1 { if 1 { break } } }; h()",
+		"&cv = `{% y = 0; while y < 2 { y = y + 1; if y { continue } } %}`; cv", "func h() { func k() { while 0 {} }; k() }; h()"}
+	for _, nb := range nested {
+		for _, lv := range leave {
+			wrap("while x < 30 { x = x + 1; " + lv + "; " + nb + " }")
+			wrap("while x < 30 { x = x + 1; " + nb + "; " + lv + " }")
+			wrap("while x < 30 { x = x + 1; " + lv + "; " + nb + "; " + lv + " }")
+		}
+	}
 	// depth 2: a depth-1 statement inside a loop / branch
 	step := 5
 	if thorough {
